@@ -30,6 +30,9 @@ pub struct EncScenario {
     pub unrolls: u64,
     pub sim_seed: u64,
     pub benign: bool,
+    /// the encoder object was used before: init_at(entry0) + unrolls0 x unroll against a first
+    /// solver process, then the solver was restarted
+    pub prior: Option<(u64, u64)>,
 }
 
 impl EncScenario {
@@ -38,7 +41,8 @@ impl EncScenario {
             "kind": "encoding",
             "workload": {"kind": "system", "system": sys_to_json(&self.sys)},
             "config": {"profile": PROFILE_NAMES[self.profile], "simplify": self.simplify,
-                       "entry_step": self.entry, "unrolls": self.unrolls},
+                       "entry_step": self.entry, "unrolls": self.unrolls,
+                       "prior_use": self.prior.map(|(e, u)| json!({"entry_step": e, "unrolls": u}))},
             "sim_seed": format!("{:#x}", self.sim_seed),
             "benign_transport": self.benign,
         })
@@ -57,6 +61,10 @@ impl EncScenario {
             )
             .map_err(|e| e.to_string())?,
             benign: v["benign_transport"].as_bool().unwrap_or(true),
+            prior: match (v["config"]["prior_use"]["entry_step"].as_u64(), v["config"]["prior_use"]["unrolls"].as_u64()) {
+                (Some(e), Some(u)) => Some((e, u)),
+                _ => None,
+            },
         })
     }
 }
@@ -142,7 +150,7 @@ fn judge_encoding_raw(scn: &EncScenario, acc: &mut Acc) -> Option<Violation> {
     let policy = Policy::random(&mut Rng::stream(scn.sim_seed, "policy"));
     let world = World::new(scn.sim_seed, tcfg, policy, FaultPlan::none());
     let btor2 = scn.sys.to_btor2();
-    let outcome = run_encoding(&world, &btor2, scn.profile, scn.simplify, scn.entry, scn.unrolls);
+    let outcome = run_encoding(&world, &btor2, scn.profile, scn.simplify, scn.entry, scn.unrolls, scn.prior);
     let w = world.borrow();
     acc.sim_steps += w.stats.events;
     acc.log_hash = acc.log_hash.rotate_left(9) ^ w.log_hash;
@@ -155,8 +163,15 @@ fn judge_encoding_raw(scn: &EncScenario, acc: &mut Acc) -> Option<Violation> {
         class: class.into(),
         site,
         detail: format!(
-            "{detail} [profile={} simplify={} entry={} unrolls={}]",
-            PROFILE_NAMES[scn.profile], scn.simplify, scn.entry, scn.unrolls
+            "{detail} [profile={} simplify={} entry={} unrolls={}{}]",
+            PROFILE_NAMES[scn.profile],
+            scn.simplify,
+            scn.entry,
+            scn.unrolls,
+            match scn.prior {
+                Some((e, u)) => format!(" encoder used before: init_at({e}), {u} x unroll, solver restart"),
+                None => String::new(),
+            }
         ),
     };
     if let Some(p) = w.procs.first() {
@@ -220,7 +235,7 @@ fn judge_encoding_raw(scn: &EncScenario, acc: &mut Acc) -> Option<Violation> {
     let state_names = &info.parsed.state_names;
     let input_names = &info.parsed.input_names;
     // oracle 2: faithfulness under random executions
-    let solver = &w.procs[0].solver;
+    let solver = &w.procs.last().unwrap().solver;
     let mut erng = Rng::stream(scn.sim_seed, "executions");
     for _ in 0..8 {
         let ex = reference_execution(&scn.sys, scn.entry == 0, scn.unrolls, &mut erng);
@@ -430,7 +445,11 @@ impl Property for C04 {
                 unrolls: if crng.chance(1, 8) { crng.range(5, 12) } else { crng.range(0, 4) },
                 sim_seed: crate::rng::mix(&[run_seed, 4, variant]),
                 benign: true,
+                // one scenario in four re-uses an encoder that has already unrolled from another
+                // step against a solver process that was restarted since
+                prior: if crng.chance(1, 4) { Some((*crng.pick(&[0u64, 0, 1, 3]), crng.range(0, 3))) } else { None },
             };
+            acc.count("probe.encoder_reused_after_solver_restart", scn.prior.is_some() as u64);
             acc.evaluations += 1;
             acc.distinct.insert(crate::rng::mix(&[
                 shape_hash(&scn.sys),
@@ -545,6 +564,16 @@ impl Property for C04 {
             s.entry = 1;
             out.push(s);
         }
+        if let Some((e, u)) = scn.prior {
+            let mut s = scn.clone();
+            s.prior = None;
+            out.push(s);
+            if u > 0 {
+                let mut s = scn.clone();
+                s.prior = Some((e, u - 1));
+                out.push(s);
+            }
+        }
         for sys in shrink::candidates(&scn.sys) {
             let mut s = scn.clone();
             s.sys = sys;
@@ -556,7 +585,7 @@ impl Property for C04 {
     fn meta(&self) -> EvidenceMeta {
         EvidenceMeta {
             level: "exploration",
-            rule: "per run: one generated system (incl. array states, states without init, init reading earlier states, init-without-next, signals shared between init/next/bad) driven through the public UnrollSmtEncoding API (new, define_header, init_at(0) or init_at(j>0), unroll x 0..4) over the real SmtLibSolverCtx to the strict reference solver, twice; plus one whole BMC or PDR conversation of a second system. Oracle 1: the reference solver (strict SMT-LIB 2.6 scoping and sorting, Bool != BitVec 1) accepts every command. Oracle 2: under 8 random concrete executions the symbols returned by get_signal_at evaluate (out of band, in the reference solver's own term evaluator) to the values of the signals in that step. Distinct by (system shape, entry kind, depth, simplified).".into(),
+            rule: "per run: one generated system (incl. array states, states without init, init reading earlier states, init-without-next, signals shared between init/next/bad) driven through the public UnrollSmtEncoding API (new, define_header, init_at(0) or init_at(j>0), unroll x 0..4; in a quarter of the cases on an encoder object that has already been initialised at another step and unrolled against a solver process restarted since) over the real SmtLibSolverCtx to the strict reference solver, twice; plus one whole BMC or PDR conversation of a second system. Oracle 1: the reference solver (strict SMT-LIB 2.6 scoping and sorting, Bool != BitVec 1) accepts every command. Oracle 2: under 8 random concrete executions the symbols returned by get_signal_at evaluate (out of band, in the reference solver's own term evaluator) to the values of the signals in that step. Distinct by (system shape, entry kind, depth, simplified).".into(),
             assumptions: vec![
                 "the reference solver's acceptance = acceptance by a standard-conforming solver; two deliberate relaxations (non-literal assumptions, unknown options) and get-value allowed after declarations".into(),
                 "executions use model-checking semantics: a state without next is unconstrained in every step".into(),
